@@ -22,14 +22,14 @@ import (
 	"strings"
 )
 
-// natExpr translates a Go integer / boolean expression to Lean; vars maps canonical Go operand text to Lean names.
-func natExpr(e ast.Expr, vars map[string]string, where string) string {
+// nrExpr translates a Go integer / boolean expression to Lean; vars maps canonical Go operand text to Lean names.
+func nrExpr(e ast.Expr, vars map[string]string, where string) string {
 	if v, ok := vars[exprString(e)]; ok {
 		return v
 	}
 	switch t := e.(type) {
 	case *ast.ParenExpr:
-		return "(" + natExpr(t.X, vars, where) + ")"
+		return "(" + nrExpr(t.X, vars, where) + ")"
 	case *ast.BasicLit:
 		if t.Kind == token.INT {
 			return t.Value
@@ -38,12 +38,12 @@ func natExpr(e ast.Expr, vars map[string]string, where string) string {
 		if id, ok := t.Fun.(*ast.Ident); ok && len(t.Args) == 1 {
 			switch id.Name {
 			case "uint64", "int64", "int", "uint32":
-				return natExpr(t.Args[0], vars, where)
+				return nrExpr(t.Args[0], vars, where)
 			}
 		}
 	case *ast.BinaryExpr:
-		x := natExpr(t.X, vars, where)
-		y := natExpr(t.Y, vars, where)
+		x := nrExpr(t.X, vars, where)
+		y := nrExpr(t.Y, vars, where)
 		switch t.Op {
 		case token.ADD:
 			return x + " + " + y
@@ -71,8 +71,8 @@ func natExpr(e ast.Expr, vars map[string]string, where string) string {
 	return ""
 }
 
-// findIf returns the first `if` statement (pre-order) below root that satisfies pred.
-func findIf(root ast.Node, pred func(*ast.IfStmt) bool) *ast.IfStmt {
+// nrFindIf returns the first `if` statement (pre-order) below root that satisfies pred.
+func nrFindIf(root ast.Node, pred func(*ast.IfStmt) bool) *ast.IfStmt {
 	var out *ast.IfStmt
 	ast.Inspect(root, func(n ast.Node) bool {
 		if out != nil {
@@ -87,8 +87,8 @@ func findIf(root ast.Node, pred func(*ast.IfStmt) bool) *ast.IfStmt {
 	return out
 }
 
-// callsIn lists the canonical text of every call expression below root (in source order).
-func callsIn(root ast.Node) []string {
+// nrCalls lists the canonical text of every call expression below root (in source order).
+func nrCalls(root ast.Node) []string {
 	var out []string
 	ast.Inspect(root, func(n ast.Node) bool {
 		if c, ok := n.(*ast.CallExpr); ok {
@@ -99,8 +99,8 @@ func callsIn(root ast.Node) []string {
 	return out
 }
 
-func hasCallPrefix(root ast.Node, prefix string) bool {
-	for _, c := range callsIn(root) {
+func nrHasCall(root ast.Node, prefix string) bool {
+	for _, c := range nrCalls(root) {
 		if strings.HasPrefix(c, prefix) {
 			return true
 		}
@@ -108,8 +108,8 @@ func hasCallPrefix(root ast.Node, prefix string) bool {
 	return false
 }
 
-// assignRHS finds `name := rhs` or `name = rhs` (single assignment) directly in the statement list.
-func assignRHS(list []ast.Stmt, name string, tok token.Token, where string) ast.Expr {
+// nrAssignRHS finds `name := rhs` or `name = rhs` (single assignment) directly in the statement list.
+func nrAssignRHS(list []ast.Stmt, name string, tok token.Token, where string) ast.Expr {
 	for _, s := range list {
 		if as, ok := s.(*ast.AssignStmt); ok && as.Tok == tok && len(as.Lhs) == 1 && len(as.Rhs) == 1 && exprString(as.Lhs[0]) == name {
 			return as.Rhs[0]
@@ -119,8 +119,8 @@ func assignRHS(list []ast.Stmt, name string, tok token.Token, where string) ast.
 	return nil
 }
 
-// commCase returns the body of the select case whose communication text contains marker.
-func commCase(root ast.Node, marker, where string) *ast.CommClause {
+// nrCommCase returns the body of the select case whose communication text contains marker.
+func nrCommCase(root ast.Node, marker, where string) *ast.CommClause {
 	var out *ast.CommClause
 	ast.Inspect(root, func(n ast.Node) bool {
 		cc, ok := n.(*ast.CommClause)
@@ -158,8 +158,8 @@ func genNetRules() {
 	{
 		fd := findFunc(dir, "Handler", "broadcastNextPartial")
 		vars := map[string]string{"upon.Round": "uponRound", "current.round": "currentRound"}
-		def := assignRHS(fd.Body.List, "round", token.DEFINE, "broadcastNextPartial")
-		is := findIf(fd.Body, func(i *ast.IfStmt) bool {
+		def := nrAssignRHS(fd.Body.List, "round", token.DEFINE, "broadcastNextPartial")
+		is := nrFindIf(fd.Body, func(i *ast.IfStmt) bool {
 			for _, s := range i.Body.List {
 				if as, ok := s.(*ast.AssignStmt); ok && as.Tok == token.ASSIGN && len(as.Lhs) == 1 && exprString(as.Lhs[0]) == "round" {
 					return true
@@ -170,11 +170,11 @@ func genNetRules() {
 		if is == nil || is.Else != nil || is.Init != nil {
 			die("broadcastNextPartial: the re-broadcast branch `if … { round = … }` was not found")
 		}
-		alt := assignRHS(is.Body.List, "round", token.ASSIGN, "broadcastNextPartial re-broadcast branch")
+		alt := nrAssignRHS(is.Body.List, "round", token.ASSIGN, "broadcastNextPartial re-broadcast branch")
 		emit("Handler.broadcastNextPartial: the round that is signed", "bnpRound", "(currentRound uponRound : Nat)", "Nat",
-			"if "+natExpr(is.Cond, vars, "broadcastNextPartial")+" then "+natExpr(alt, vars, "broadcastNextPartial")+" else "+natExpr(def, vars, "broadcastNextPartial"))
+			"if "+nrExpr(is.Cond, vars, "broadcastNextPartial")+" then "+nrExpr(alt, vars, "broadcastNextPartial")+" else "+nrExpr(def, vars, "broadcastNextPartial"))
 		// the packet must carry that round and go to the own aggregator and to every other member
-		calls := callsIn(fd.Body)
+		calls := nrCalls(fd.Body)
 		want := []string{"h.chain.NewValidPartial(ctx,h.addr,packet)", "h.client.PartialBeacon(ctx,&i,packet)"}
 		for _, w := range want {
 			ok := false
@@ -208,23 +208,23 @@ func genNetRules() {
 	// --- Handler.run
 	{
 		fd := findFunc(dir, "Handler", "run")
-		tick := commCase(fd.Body, "chanTick", "Handler.run")
+		tick := nrCommCase(fd.Body, "chanTick", "Handler.run")
 		vars := map[string]string{"lastBeacon.Round": "lastRound", "current.round": "currentRound", "b.Round": "bRound"}
 		// the tick case must call broadcastNextPartial(ctx, current, lastBeacon) before the gap test
-		if !hasCallPrefix(tick, "h.broadcastNextPartial(ctx,current,lastBeacon)") {
+		if !nrHasCall(tick, "h.broadcastNextPartial(ctx,current,lastBeacon)") {
 			die("Handler.run: tick case does not call h.broadcastNextPartial(ctx, current, lastBeacon)")
 		}
-		gap := findIf(tick, func(i *ast.IfStmt) bool { return hasCallPrefix(i.Body, "h.chain.RunSync(") })
+		gap := nrFindIf(tick, func(i *ast.IfStmt) bool { return nrHasCall(i.Body, "h.chain.RunSync(") })
 		if gap == nil {
 			die("Handler.run: tick case has no `if <gap> { … h.chain.RunSync(…) }`")
 		}
-		if !hasCallPrefix(gap.Body, "h.chain.RunSync(ctx,current.round,nil)") {
+		if !nrHasCall(gap.Body, "h.chain.RunSync(ctx,current.round,nil)") {
 			die("Handler.run: the gap branch does not RunSync up to current.round with the group's peers")
 		}
 		emit("Handler.run, tick: a gap between the stored head and the ticked round launches RunSync(current.round)", "gapSync",
-			"(lastRound currentRound : Nat)", "Bool", natExpr(gap.Cond, vars, "Handler.run gap"))
-		app := commCase(fd.Body, "AppendedBeaconNoSync", "Handler.run")
-		cu := findIf(app, func(i *ast.IfStmt) bool {
+			"(lastRound currentRound : Nat)", "Bool", nrExpr(gap.Cond, vars, "Handler.run gap"))
+		app := nrCommCase(fd.Body, "AppendedBeaconNoSync", "Handler.run")
+		cu := nrFindIf(app, func(i *ast.IfStmt) bool {
 			for _, s := range i.Body.List {
 				if _, ok := s.(*ast.GoStmt); ok {
 					return true
@@ -247,7 +247,7 @@ func genNetRules() {
 		}
 		// body: Sleep(CatchupPeriod); ctx.Done check; broadcastNextPartial(ctx, c, &latest), in this order
 		seq := []string{}
-		for _, c := range callsIn(fl.Body) {
+		for _, c := range nrCalls(fl.Body) {
 			if c == "h.conf.Clock.Sleep(h.conf.Group.CatchupPeriod)" || c == "h.broadcastNextPartial(ctx,c,&latest)" {
 				seq = append(seq, c)
 			}
@@ -262,7 +262,7 @@ func genNetRules() {
 		}
 		emit("Handler.run, AppendedBeaconNoSync: an appended beacon behind the ticked round launches the catch-up goroutine "+
 			"(Sleep(CatchupPeriod), then broadcastNextPartial on top of that beacon)", "catchupLaunch",
-			"(bRound currentRound : Nat)", "Bool", natExpr(cu.Cond, vars, "Handler.run catch-up"))
+			"(bRound currentRound : Nat)", "Bool", nrExpr(cu.Cond, vars, "Handler.run catch-up"))
 	}
 
 	// --- Handler.Catchup: nRound, tTime := NextRound(now…); go h.run(tTime); h.chain.RunSync(ctx, nRound, nil)
@@ -292,17 +292,17 @@ func genNetRules() {
 	{
 		fd := findFunc(dir, "Handler", "ProcessPartialBeacon")
 		vars := map[string]string{"pRound": "pRound", "nextRound": "nextRound", "latest.GetRound()": "latest"}
-		cur := assignRHS(fd.Body.List, "currentRound", token.DEFINE, "ProcessPartialBeacon")
+		cur := nrAssignRHS(fd.Body.List, "currentRound", token.DEFINE, "ProcessPartialBeacon")
 		if exprString(cur) != "nextRound-1" {
 			die("ProcessPartialBeacon: currentRound is %s, expected nextRound-1", exprString(cur))
 		}
-		fut := findIf(fd.Body, func(i *ast.IfStmt) bool { return strings.Contains(exprString(i.Cond), "nextRound") })
-		if fut == nil || !returnsError(fut.Body) {
+		fut := nrFindIf(fd.Body, func(i *ast.IfStmt) bool { return strings.Contains(exprString(i.Cond), "nextRound") })
+		if fut == nil || !nrReturnsError(fut.Body) {
 			die("ProcessPartialBeacon: future filter not found")
 		}
 		emit("ProcessPartialBeacon: partial rejected as being from the future", "ppbFuture", "(pRound nextRound : Nat)", "Bool",
-			natExpr(fut.Cond, vars, "ProcessPartialBeacon future"))
-		past := findIf(fd.Body, func(i *ast.IfStmt) bool { return i.Init != nil && strings.Contains(stmtString(i.Init), "h.chain.Last(ctx)") })
+			nrExpr(fut.Cond, vars, "ProcessPartialBeacon future"))
+		past := nrFindIf(fd.Body, func(i *ast.IfStmt) bool { return i.Init != nil && strings.Contains(stmtString(i.Init), "h.chain.Last(ctx)") })
 		if past == nil {
 			die("ProcessPartialBeacon: past filter not found")
 		}
@@ -311,7 +311,7 @@ func genNetRules() {
 			die("ProcessPartialBeacon: past filter is not `err == nil && …`")
 		}
 		emit("ProcessPartialBeacon: partial ignored because that round is already stored", "ppbPast", "(pRound latest : Nat)", "Bool",
-			natExpr(be.Y, vars, "ProcessPartialBeacon past"))
+			nrExpr(be.Y, vars, "ProcessPartialBeacon past"))
 	}
 
 	// --- runAggregator
@@ -319,27 +319,27 @@ func genNetRules() {
 		fd := findFunc(dir, "chainStore", "runAggregator")
 		vars := map[string]string{"pRound": "pRound", "lastBeacon.Round": "lastRound", "partialCacheStoreLimit": "partialCacheStoreLimit",
 			"isNotInPast": "", "isNotTooFar": "", "roundCache.Len()": "len", "thr": "thr"}
-		pc := commCase(fd.Body, "c.newPartials", "runAggregator")
-		a := assignRHS(pc.Body, "isNotInPast", token.DEFINE, "runAggregator")
-		b := assignRHS(pc.Body, "isNotTooFar", token.DEFINE, "runAggregator")
-		c := assignRHS(pc.Body, "shouldStore", token.DEFINE, "runAggregator")
+		pc := nrCommCase(fd.Body, "c.newPartials", "runAggregator")
+		a := nrAssignRHS(pc.Body, "isNotInPast", token.DEFINE, "runAggregator")
+		b := nrAssignRHS(pc.Body, "isNotTooFar", token.DEFINE, "runAggregator")
+		c := nrAssignRHS(pc.Body, "shouldStore", token.DEFINE, "runAggregator")
 		if exprString(c) != "isNotInPast&&isNotTooFar" {
 			die("runAggregator: shouldStore is %s", exprString(c))
 		}
 		delete(vars, "isNotInPast")
 		delete(vars, "isNotTooFar")
 		emit("runAggregator: the partial is kept (round above the last stored beacon and within the cache window)", "aggInWindow",
-			"(pRound lastRound : Nat)", "Bool", "("+natExpr(a, vars, "runAggregator")+" && "+natExpr(b, vars, "runAggregator")+")")
-		notStore := findIf(pc, func(i *ast.IfStmt) bool { return exprString(i.Cond) == "!shouldStore" })
-		if notStore == nil || !endsWithBreak(notStore.Body) {
+			"(pRound lastRound : Nat)", "Bool", "("+nrExpr(a, vars, "runAggregator")+" && "+nrExpr(b, vars, "runAggregator")+")")
+		notStore := nrFindIf(pc, func(i *ast.IfStmt) bool { return exprString(i.Cond) == "!shouldStore" })
+		if notStore == nil || !nrEndsWithBreak(notStore.Body) {
 			die("runAggregator: `if !shouldStore { … break }` not found")
 		}
-		few := findIf(pc, func(i *ast.IfStmt) bool { return strings.HasPrefix(exprString(i.Cond), "roundCache.Len()") })
-		if few == nil || !endsWithBreak(few.Body) {
+		few := nrFindIf(pc, func(i *ast.IfStmt) bool { return strings.HasPrefix(exprString(i.Cond), "roundCache.Len()") })
+		if few == nil || !nrEndsWithBreak(few.Body) {
 			die("runAggregator: threshold test `if roundCache.Len() … { … break }` not found")
 		}
-		emit("runAggregator: not enough partials yet", "aggNotEnough", "(len thr : Nat)", "Bool", natExpr(few.Cond, vars, "runAggregator threshold"))
-		thr := assignRHS(pc.Body, "thr", token.DEFINE, "runAggregator")
+		emit("runAggregator: not enough partials yet", "aggNotEnough", "(len thr : Nat)", "Bool", nrExpr(few.Cond, vars, "runAggregator threshold"))
+		thr := nrAssignRHS(pc.Body, "thr", token.DEFINE, "runAggregator")
 		if exprString(thr) != "c.crypto.GetGroup().Threshold" {
 			die("runAggregator: thr is %s", exprString(thr))
 		}
@@ -348,7 +348,7 @@ func genNetRules() {
 			"cache.FlushRounds(partial.p.GetRound())", "c.tryAppend(ctx,lastBeacon,newBeacon)", "c.shouldSync(lastBeacon,newBeacon)",
 			"c.syncm.SendSyncRequest(ctx,newBeacon.Round,peers)"}
 		pos := 0
-		for _, cl := range callsIn(pc) {
+		for _, cl := range nrCalls(pc) {
 			if pos < len(order) && strings.HasPrefix(cl, order[pos]) {
 				pos++
 			}
@@ -363,12 +363,12 @@ func genNetRules() {
 	{
 		fd := findFunc(dir, "chainStore", "tryAppend")
 		vars := map[string]string{"last.Round": "lastRound", "newB.Round": "newRound"}
-		ref := findIf(fd.Body, func(i *ast.IfStmt) bool { return strings.Contains(exprString(i.Cond), "newB.Round") })
+		ref := nrFindIf(fd.Body, func(i *ast.IfStmt) bool { return strings.Contains(exprString(i.Cond), "newB.Round") })
 		if ref == nil || len(ref.Body.List) == 0 || stmtString(ref.Body.List[len(ref.Body.List)-1]) != "return false" {
 			die("tryAppend: round pre-check `if last.Round+1 != newB.Round { return false }` not found")
 		}
 		emit("chainStore.tryAppend: refused without touching the store", "tryAppendRefuse", "(lastRound newRound : Nat)", "Bool",
-			natExpr(ref.Cond, vars, "tryAppend"))
+			nrExpr(ref.Cond, vars, "tryAppend"))
 		// both success paths notify the catch-up channel
 		cnt := 0
 		ast.Inspect(fd.Body, func(n ast.Node) bool {
@@ -389,21 +389,21 @@ func genNetRules() {
 			die("shouldSync: expected a single return")
 		}
 		emit("chainStore.shouldSync", "shouldSync", "(lastRound newRound : Nat)", "Bool",
-			natExpr(rs.Results[0], map[string]string{"newB.GetRound()": "newRound", "last.GetRound()": "lastRound"}, "shouldSync"))
+			nrExpr(rs.Results[0], map[string]string{"newB.GetRound()": "newRound", "last.GetRound()": "lastRound"}, "shouldSync"))
 	}
 
 	// --- SyncManager.Run admission and tryNode completion
 	{
 		fd := findFunc(dir, "SyncManager", "Run")
 		vars := map[string]string{"request.upTo": "upTo", "last.Round": "lastRound"}
-		filled := findIf(fd.Body, func(i *ast.IfStmt) bool { return strings.HasPrefix(exprString(i.Cond), "request.upTo>0&&") })
-		if filled == nil || !endsWithContinue(filled.Body) {
+		filled := nrFindIf(fd.Body, func(i *ast.IfStmt) bool { return strings.HasPrefix(exprString(i.Cond), "request.upTo>0&&") })
+		if filled == nil || !nrEndsWithContinue(filled.Body) {
 			die("SyncManager.Run: `if request.upTo > 0 && last.Round >= request.upTo { … continue }` not found")
 		}
 		emit("SyncManager.Run: request dropped because the store already holds the target", "syncFilled", "(upTo lastRound : Nat)", "Bool",
-			natExpr(filled.Cond, vars, "SyncManager.Run"))
-		restart := findIf(fd.Body, func(i *ast.IfStmt) bool { return strings.Contains(exprString(i.Cond), "s.clock.Now().After(upperBound)") })
-		if restart == nil || exprString(restart.Cond) != "ctx.Err()!=nil||s.clock.Now().After(upperBound)" || !hasCallPrefix(restart.Body, "s.Sync(ctx,request)") {
+			nrExpr(filled.Cond, vars, "SyncManager.Run"))
+		restart := nrFindIf(fd.Body, func(i *ast.IfStmt) bool { return strings.Contains(exprString(i.Cond), "s.clock.Now().After(upperBound)") })
+		if restart == nil || exprString(restart.Cond) != "ctx.Err()!=nil||s.clock.Now().After(upperBound)" || !nrHasCall(restart.Body, "s.Sync(ctx,request)") {
 			die("SyncManager.Run: restart rule `if ctx.Err() != nil || now.After(upperBound) { … s.Sync(ctx, request) }` not found")
 		}
 		ub := ""
@@ -417,11 +417,11 @@ func genNetRules() {
 			die("SyncManager.Run: upperBound is %s", ub)
 		}
 		td := findFunc(dir, "SyncManager", "tryNode")
-		done := findIf(td.Body, func(i *ast.IfStmt) bool { return exprString(i.Cond) == "last.Round==upTo" })
+		done := nrFindIf(td.Body, func(i *ast.IfStmt) bool { return exprString(i.Cond) == "last.Round==upTo" })
 		if done == nil {
 			die("SyncManager.tryNode: completion test `if last.Round == upTo` not found")
 		}
-		from := findIf(td.Body, func(i *ast.IfStmt) bool { return exprString(i.Cond) == "from==0" })
+		from := nrFindIf(td.Body, func(i *ast.IfStmt) bool { return exprString(i.Cond) == "from==0" })
 		if from == nil || len(from.Body.List) != 1 || stmtString(from.Body.List[0]) != "from=last.Round+1" {
 			die("SyncManager.tryNode: `if from == 0 { from = last.Round + 1 }` not found")
 		}
@@ -434,7 +434,7 @@ func genNetRules() {
 	l.pf("end Gen\n")
 }
 
-func returnsError(b *ast.BlockStmt) bool {
+func nrReturnsError(b *ast.BlockStmt) bool {
 	if len(b.List) == 0 {
 		return false
 	}
@@ -442,7 +442,7 @@ func returnsError(b *ast.BlockStmt) bool {
 	return ok && len(rs.Results) == 2 && exprString(rs.Results[0]) == "nil"
 }
 
-func endsWithBreak(b *ast.BlockStmt) bool {
+func nrEndsWithBreak(b *ast.BlockStmt) bool {
 	if len(b.List) == 0 {
 		return false
 	}
@@ -450,7 +450,7 @@ func endsWithBreak(b *ast.BlockStmt) bool {
 	return ok && bs.Tok == token.BREAK
 }
 
-func endsWithContinue(b *ast.BlockStmt) bool {
+func nrEndsWithContinue(b *ast.BlockStmt) bool {
 	if len(b.List) == 0 {
 		return false
 	}
